@@ -75,7 +75,9 @@ func Relocate(err error, filename string, line, col int) error {
 	case *scanner.Error:
 		relocatePos(&e.Pos, filename, line, col)
 	default:
-		panic("todo: " + reflect.TypeOf(err).String())
+		// an error without position (e.g. cl.ErrNoDocFound): report it at the start of the grammar text
+		pos := token.Position{Filename: filename, Line: line, Column: col}
+		return &scanner.Error{Pos: pos, Msg: err.Error()}
 	}
 	return err
 }
